@@ -269,6 +269,7 @@ class Interp:
             idx = p[2]
             def get():
                 o = g()
+                while isinstance(o, Ref): o = o.get()
                 if isinstance(o, UninitBox): return o
                 if not isinstance(o, Agg) and idx == 0: return o   # transparent newtype over a slice (Latin1Str)
                 return o.fields[idx]
@@ -395,7 +396,9 @@ class Interp:
             return BV((-v.e) if v.conc() else (-v.e), v.bits)
         if m and m.group(1) == 'discriminant':
             g, _ = self.place_ref(ctx, parse_place(m.group(2)), frame)
-            return BV(g().vidx, 64)
+            o = g()
+            while isinstance(o, Ref): o = o.get()
+            return BV(o.vidx, 64)
         if m and m.group(1) == 'PtrMetadata':
             v = self.operand(ctx, m.group(2), frame)
             if isinstance(v, Ref): v = v.get()
